@@ -105,7 +105,7 @@ Section Sessions.
     w_rrest st0 = skipn (N.to_nat roff) old /\ w_roff st0 = roff /\ w_bn st0 = 0 /\ w_bbuf st0 = [] /\ w_fail st0 = false /\
     ((ooff = 0 /\ w_out st0 = [enc (Skip 0); magic] /\ w_ooff st0 = len magic + len (enc (Skip 0))) \/
      (ooff <> 0 /\ w_out st0 = [] /\ w_ooff st0 = ooff)).
-  Proof.
+  Proof using Type.
     unfold Writer.new_writer. destruct (N.eqb_spec ooff 0) as [->|Hnz]; cbn; rewrite dropN_spec;
       repeat split; try reflexivity.
     - left. repeat split; reflexivity.
@@ -113,7 +113,7 @@ Section Sessions.
   Qed.
 
   Lemma run_events_log_fst evs : forall st log, fst (fold_left (run_event_log bufSize threshold enc) evs (st, log)) = run_events st evs.
-  Proof.
+  Proof using Type.
     induction evs as [|e evs IH]; intros st log; cbn [fold_left Writer.run_events].
     - reflexivity.
     - unfold run_event_log at 2. cbn [fst snd]. rewrite IH. reflexivity.
@@ -123,7 +123,7 @@ Section Sessions.
     let st0 := new_writer old roff ooff in
     let st := bw_flush (run_events st0 evs) in
     exists ops, rel st0 st ops (written evs) /\ w_fail st = false /\ w_bn st = 0 /\ w_bbuf st = [].
-  Proof.
+  Proof using HbufSize.
     intros st0 st.
     destruct (new_writer_fields old roff ooff) as (_ & _ & Hbn & Hbb & Hf & _). fold st0 in Hbn, Hbb, Hf.
     assert (H0 : binv bufSize enc st0 st0 []) by (apply binv_init; assumption).
@@ -284,9 +284,12 @@ Section Sessions.
     w_roff st = roff + len (written evs) /\
     w_ooff st = ooff + len (session_bytes st) /\
     w_bn st = 0 /\ w_bbuf st = [] /\ w_fail st = false.
-  Proof.
-    destruct (session_ok old roff ooff evs) as (ops & [R1 R2 R3 R4 R5 R6] & Hf & Hbn & Hbb). cbn zeta in *.
-    destruct (new_writer_fields old roff ooff) as (_ & Hro & _ & _ & _ & Hout).
+  Proof using HbufSize.
+    clear dec_enc. clear dec.
+    pose proof (session_ok old roff ooff evs) as H. cbv zeta in H.
+    destruct H as (ops & [R1 R2 R3 R4 R5 R6] & Hf & Hbn & Hbb). cbv zeta.
+    pose proof (new_writer_fields old roff ooff) as H. cbv zeta in H.
+    destruct H as (_ & Hro & _ & _ & _ & Hout).
     split; [rewrite R2, Hro; reflexivity|]. split; [|split; [exact Hbn|split; [exact Hbb|exact Hf]]].
     unfold session_bytes. rewrite concat_rev_spec, R3, rev_app_distr, rev_involutive, concat_app, R4.
     destruct Hout as [(Hz & Ho & Hoo)|(Hnz & Ho & Hoo)]; rewrite Ho, Hoo; cbn [rev concat app].
